@@ -7,7 +7,11 @@ import (
 	"fmt"
 	"os"
 	"path"
+	"regexp"
+	"runtime"
+	"runtime/debug"
 	"sort"
+	"strconv"
 	"strings"
 	"sync"
 	"time"
@@ -117,31 +121,32 @@ type Round struct {
 
 // History is the observation history of a case.
 type History struct {
+	writeStuck     bool
 	LeftAfterClose []string // files still in Directory after Close (set by Cleanup)
 	leftChecked    bool
-	Case          *media.Case
-	M             *gohlslib.Muxer
-	Tracks        []*gohlslib.Track
-	StreamIDs     []string // stream ids in muxer order
-	StreamOf      []string // per case track: stream id
-	Rounds        []*Round
-	URIs          map[string]*URIRec
-	URIOrder      []string
-	Dir           string
-	StartErr      string
-	Hangs         []string
-	Panics        []string
-	Problems      []string // harness-level problems (inconclusive)
-	EncErrs       []string
-	WriteErrs     int
-	pending       map[string]*hx.Req
-	pendParks     map[string]int
-	mu            sync.Mutex
-	rotated       []string
-	lastText      map[string]string
-	Light         bool // keep less (long runs)
-	UnknownProbes []string
-	Closed        bool
+	Case           *media.Case
+	M              *gohlslib.Muxer
+	Tracks         []*gohlslib.Track
+	StreamIDs      []string // stream ids in muxer order
+	StreamOf       []string // per case track: stream id
+	Rounds         []*Round
+	URIs           map[string]*URIRec
+	URIOrder       []string
+	Dir            string
+	StartErr       string
+	Hangs          []string
+	Panics         []string
+	Problems       []string // harness-level problems (inconclusive)
+	EncErrs        []string
+	WriteErrs      int
+	pending        map[string]*hx.Req
+	pendParks      map[string]int
+	mu             sync.Mutex
+	rotated        []string
+	lastText       map[string]string
+	Light          bool // keep less (long runs)
+	UnknownProbes  []string
+	Closed         bool
 }
 
 // Options tune a run.
@@ -267,8 +272,110 @@ func (h *History) Cleanup() {
 	}
 }
 
-// DoWrite performs write #i of the case.
+// ErrWriteStuck is returned by DoWrite when the Write* call did not return.
+var ErrWriteStuck = fmt.Errorf("Write* did not return")
+
+var reGoroutineHdr = regexp.MustCompile(`^goroutine (\d+) \[([^\]]+)\]`)
+
+// DoWrite performs write #i of the case. The call runs in its own goroutine: a Write* that does not
+// come back within the watchdog while its goroutine is parked on a lock or a condition variable (the
+// muxer is deadlocked: nothing else is running that could release it) is recorded in Hangs and
+// abandoned. A writer that is merely slow (runnable, in a system call) is waited for.
 func (h *History) DoWrite(i int) error {
+	if h.writeStuck {
+		return ErrWriteStuck
+	}
+	type result struct {
+		err error
+		pnc any
+	}
+	done := make(chan result, 1)
+	gidCh := make(chan int64, 1)
+	go func() {
+		buf := make([]byte, 64)
+		n := runtime.Stack(buf, false)
+		var gid int64 = -1
+		if m := reGoroutineHdr.FindSubmatch(buf[:n]); m != nil {
+			gid, _ = strconv.ParseInt(string(m[1]), 10, 64)
+		}
+		gidCh <- gid
+		var r result
+		defer func() {
+			if p := recover(); p != nil {
+				// handed to the calling goroutine, which panics with it (callers recover there)
+				r.pnc = fmt.Sprintf("%v\n%s", p, debug.Stack())
+			}
+			done <- r
+		}()
+		r.err = h.doWrite(i)
+	}()
+	gid := <-gidCh
+	for waited := time.Duration(0); ; waited += Watchdog {
+		select {
+		case r := <-done:
+			if r.pnc != nil {
+				panic(r.pnc)
+			}
+			return r.err
+		case <-time.After(Watchdog):
+		}
+		state, frame := goroutineState(gid)
+		// parked, and the innermost frame that is not the runtime's or sync's belongs to gohlslib (a
+		// writer held inside one of this harness's hooks has a verif/ frame there instead)
+		if (strings.HasPrefix(state, "sync.") || strings.HasPrefix(state, "semacquire") || strings.HasPrefix(state, "chan ") || strings.HasPrefix(state, "select")) &&
+			strings.Contains(frame, "bluenviron/gohlslib/v2") {
+			state += " in " + frame
+			h.writeStuck = true
+			h.Hangs = append(h.Hangs, fmt.Sprintf("write %d (track %d) did not return after %s: its goroutine is parked [%s]", i, h.Case.Writes[i].Track, waited+Watchdog, state))
+			return ErrWriteStuck
+		}
+		if waited > 10*Watchdog {
+			h.writeStuck = true
+			h.Hangs = append(h.Hangs, fmt.Sprintf("write %d did not return after %s (goroutine state %q)", i, waited, state))
+			return ErrWriteStuck
+		}
+	}
+}
+
+func goroutineState(gid int64) (string, string) {
+	buf := make([]byte, 1<<20)
+	for {
+		n := runtime.Stack(buf, true)
+		if n < len(buf) {
+			buf = buf[:n]
+			break
+		}
+		buf = make([]byte, len(buf)*2)
+	}
+	for _, blk := range strings.Split(string(buf), "\n\n") {
+		if m := reGoroutineHdr.FindStringSubmatch(blk); m != nil {
+			if id, _ := strconv.ParseInt(m[1], 10, 64); id == gid {
+				st := m[2]
+				if i := strings.IndexByte(st, ','); i >= 0 {
+					st = st[:i]
+				}
+				frame := ""
+				for _, l := range strings.Split(blk, "\n")[1:] {
+					if strings.HasPrefix(l, "\t") || strings.HasPrefix(l, "runtime.") || strings.HasPrefix(l, "sync.") || strings.HasPrefix(l, "internal/") || strings.HasPrefix(l, "created by") {
+						continue
+					}
+					frame = l
+					if i := strings.IndexByte(frame, '('); i > 0 {
+						// keep "pkg.(*T).method" / "pkg.func"
+						if j := strings.LastIndexByte(frame, '('); j > 0 {
+							frame = frame[:j]
+						}
+					}
+					break
+				}
+				return st, frame
+			}
+		}
+	}
+	return "gone", ""
+}
+
+func (h *History) doWrite(i int) error {
 	w := h.Case.Writes[i]
 	t := h.Tracks[w.Track]
 	switch h.Case.Tracks[w.Track].Kind {
